@@ -71,6 +71,47 @@ def main(tier, seed):
                     del bad[i]
             if not r.get("early_before_scheduler") and i in bad and 99 not in bad[i]:
                 del bad[i]   # the interrupt arrived once the scheduler was up: that is C07's quantifier, not C13's
+    # a device fails in the initial tick while other participants have not come up yet: the components that start late
+    # find the stop request in what is replayed to them and end like those that were there -- every device has an adapter
+    # that serves until it is cancelled, so a component's task only finishes if it has really been stopped
+    from tickit.core.adapter import AdapterContainer
+    import asyncio
+
+    class BlockingAdapter:
+        def after_update(self):
+            pass
+
+    class BlockingIo:
+        async def setup(self, adapter, raise_interrupt):
+            await asyncio.Event().wait()
+
+    def blocking():
+        return [AdapterContainer(BlockingAdapter(), BlockingIo())]
+
+    fcases = []
+    for cfg, devs in small:
+        tops = [c for (c, _) in cfg[1]["order"]]
+        ad = {d: blocking for d in slevel.devices_of(cfg)}
+        for failing in slevel.devices_of(cfg):
+            ref = slevel.run_internal(cfg, devs, (1, 1), 0, [], 300_000_003, fail={failing: 1}, adapters=ad)
+            for vec in itertools.product((0, 3, 6), repeat=len(tops) + 1):
+                delays = dict(zip(["sched"] + tops, vec))
+                if not any(vec):
+                    continue
+                r = slevel.run_internal(cfg, devs, (1, 1), 0, [], 300_000_003, fail={failing: 1}, adapters=ad, delays=delays)
+                fcases.append((cfg, devs, failing, delays, ref, r))
+    ck.evaluations += len(fcases)
+    ck.coverage["failure_in_the_initial_tick_with_late_participants"] = len(fcases)
+    for (cfg, devs, failing, delays, ref, r) in fcases:
+        ck.count("fail-start:" + json.dumps([{str(k): v for k, v in cfg.items()}, failing, {str(k): v for k, v in delays.items()}], default=str), True)
+        if r["done_by"] != ref["done_by"] or r["error"]:
+            d = sprops.describe(dict(cfg=cfg, devs=devs, speed=(1, 1), initial=0, stim=[]))
+            d.update(kind="failing-start", failing=failing, delays={str(k): v for k, v in delays.items()},
+                     finished_all_started_together=ref["done_by"], finished=r["done_by"], error=r["error"])
+            ck.report("failure-during-start-up-leaves-late-participants-running",
+                      f"device c{failing} fails in the initial tick, start delays {delays}: participants whose task has ended "
+                      f"{r['done_by']}, all started together {ref['done_by']}", d)
+            break
     ck.rule = ("whole simulations (flat, one system, system without inputs; random nested) where the scheduler and each top-level "
                f"component are started at their own event-loop step: every delay vector in 0..{dmax} exhaustively on the small "
                "configurations, random delays 0..9 on random ones; early interrupt of a running device before a late scheduler; "
@@ -99,6 +140,28 @@ def main(tier, seed):
 
 
 def replay(rp):
+    if rp.get("kind") == "failing-start":
+        import asyncio
+        from tickit.core.adapter import AdapterContainer
+
+        class BlockingAdapter:
+            def after_update(self):
+                pass
+
+        class BlockingIo:
+            async def setup(self, adapter, raise_interrupt):
+                await asyncio.Event().wait()
+
+        cfg = {int(k): dict(order=[(c, (k2 if k2 == "dev" else int(k2))) for c, k2 in v["order"]],
+                            conns=[tuple(x) for x in v["conns"]]) for k, v in rp["cfg"].items()}
+        devs = {int(k): tuple(v) for k, v in rp["devs"].items()}
+        ad = {d: (lambda: [AdapterContainer(BlockingAdapter(), BlockingIo())]) for d in slevel.devices_of(cfg)}
+        delays = {(k if k == "sched" else int(k)): v for k, v in rp["delays"].items()}
+        ref = slevel.run_internal(cfg, devs, (1, 1), 0, [], 300_000_003, fail={rp["failing"]: 1}, adapters=ad)
+        r = slevel.run_internal(cfg, devs, (1, 1), 0, [], 300_000_003, fail={rp["failing"]: 1}, adapters=ad, delays=delays)
+        print("device", rp["failing"], "fails in the initial tick; start delays", delays)
+        print("participants whose task has ended:", r["done_by"], "all started together:", ref["done_by"], r["error"], r["errors"][:2])
+        return 1 if (r["done_by"] != ref["done_by"] or r["error"] or r["errors"]) else 0
     cfg = {int(k): dict(order=[(c, (k2 if k2 == "dev" else int(k2))) for c, k2 in v["order"]],
                         conns=[tuple(x) for x in v["conns"]]) for k, v in rp["cfg"].items()}
     devs = {int(k): tuple(v) for k, v in rp["devs"].items()}
